@@ -46,8 +46,8 @@ pub fn string_alphabet(pos: Pos) -> Vec<String> {
         Pos::Query => vec![s(""), s(" a "), s("a\t"), s("a b"), s("a+b"), s("a%b"), s("a&b=c"), s("a/b"), s("a?b"), s("a#b"), s("é"), s("😀"), s(".."), "q".repeat(1024)],
         Pos::Label => vec![s(" a "), s("a b"), s("a+b"), s("a%b"), s("a&b=c"), s("a/b"), s("a?b"), s("a#b"), s("é"), s("😀"), s("a/../b"), "k".repeat(1024)],
         // (an empty payload is indistinguishable from an absent one on the wire, so "" is not a payload value)
-        Pos::Payload => vec![s(" a "), s(" "), s("\t\n"), s("<a&b>\"'"), s("]]>"), s("é😀"), s("a\tb\nc"), s("\r"), s("\u{85}"), s("\u{fffd}")],
-        Pos::Xml => vec![s(""), s(" a "), s(" "), s("\t\n"), s("<a&b>\"'"), s("]]>"), s("é😀"), s("a\tb\nc"), s("\r"), s("\u{85}"), s("\u{fffd}")],
+        Pos::Payload => vec![s(" a "), s(" "), s("\t\n"), s("<a&b>\"'"), s("x&amp;y&#65;&lt;"), s("]]>"), s("é😀"), s("a\tb\nc"), s("\r"), s("\u{85}"), s("\u{fffd}")],
+        Pos::Xml => vec![s(""), s(" a "), s(" "), s("\t\n"), s("<a&b>\"'"), s("x&amp;y&#65;&lt;"), s("]]>"), s("é😀"), s("a\tb\nc"), s("\r"), s("\u{85}"), s("\u{fffd}")],
     }
 }
 
